@@ -375,7 +375,7 @@ func explore(pr *Program, cfg *Config, harness *ssa.Function) *HarnessResult {
 				}
 				for _, v := range res.Violations {
 					key := v.Kind + "/" + v.Name
-					if !vioSeen[key] || len(hr.Violations) < 50 {
+					if !vioSeen[key] || len(hr.Violations) < 6000 {
 						if !vioSeen[key] {
 							vioSeen[key] = true
 						}
